@@ -218,7 +218,9 @@ def stereo_mol_graph_to_rdmol(
 
             if a_stereo.parity is None:
                 rd_stereo = Chem.rdchem.ChiralType.CHI_TETRAHEDRAL
-            elif rd_nbrs in {tuple(perm[1:5]) for perm in a_stereo._perm_atoms()}:
+            elif (*rd_nbrs, *[None] * (4 - len(rd_nbrs))) in {
+                tuple(perm[1:5]) for perm in a_stereo._perm_atoms()
+            }:
                 rd_stereo = rd_tetrahedral[a_stereo.parity]
             else:
                 rd_stereo = rd_tetrahedral[a_stereo.parity * -1]
